@@ -242,7 +242,10 @@ def to_poly(s, atom_map=None, _depth: int = 0) -> Optional[Poly]:
         return p_atom((k,) + tuple(args))
     # atoms: ('in', ...), ('rd', ...), ('param', ...), ('elem', ...), ('idx', ...), ('lenterm', ...), ...
     if atom_map is not None:
-        s = atom_map(s)
+        s2 = atom_map(s)
+        if s2 is not s and isinstance(s2, tuple) and s2 and s2[0] in ("add", "sub", "mul", "neg", "div", "const", "pow"):
+            return to_poly(s2, None, _depth)  # an atom replaced by an expression (substitution of an assumed equation)
+        s = s2
     if _has_star(s):
         # a term at an unknown position ('*'): two occurrences need not denote the same value, so each occurrence is
         # its own atom (never cancels, never proves two normal forms equal)
